@@ -434,7 +434,12 @@ Section PassKinds.
       apply kinds_app; split; [apply Hif; reflexivity|].
       apply kinds_app; split; [apply Hif; reflexivity|].
       apply kinds_app; split; apply Hif; reflexivity.
-    - destruct (eval f (lookup consts) dflt) as [v|es] eqn:Ee; cbn [fst t_errs].
+    - match goal with
+      | |- context [check ?a ?b ?c ?d] => destruct (check a b c d) as [wc|esc] eqn:Ec
+      end.
+      2:{ cbn [fst t_errs]. apply kinds_app. split; [exact Ht|]. apply check_kinds in Ec.
+          destruct Ec as [_ Ec]. apply (kinds_mono expr_diag mid_diag esc expr_mid Ec). }
+      destruct (eval f (lookup consts) dflt) as [v|es] eqn:Ee; cbn [fst t_errs].
       + apply kinds_app. split; [exact Ht|].
         destruct (wcombine (wd v) w); [apply kinds_nil | apply kinds_one; reflexivity].
       + apply kinds_app. split; [exact Ht|]. apply eval_err in Ee. destruct Ee as [_ Ee].
@@ -725,7 +730,12 @@ Section BankOuts.
     match goal with
     | |- context [match ?pre with [] => _ | _ :: _ => _ end] => destruct pre as [|e0 pre0]
     end.
-    - destruct (eval f (lookup consts) dflt) as [v|es] eqn:Ee; cbn [fst snd t_errs t_banks]; intros He;
+    - match goal with
+      | |- context [check ?a ?b ?c ?d] => destruct (check a b c d) as [wc|esc] eqn:Ec
+      end.
+      2:{ cbn [fst snd t_errs t_banks]. intros He. apply app_eq_nil in He. destruct He as [_ He2].
+          apply check_err in Ec. contradiction (Ec He2). }
+      destruct (eval f (lookup consts) dflt) as [v|es] eqn:Ee; cbn [fst snd t_errs t_banks]; intros He;
         apply app_eq_nil in He; destruct He as [He1 He2].
       + split; [exact He1|]. split; reflexivity.
       + apply eval_err in Ee. destruct Ee as [Ee _]. contradiction (Ee He2).
@@ -805,6 +815,83 @@ Section BankOuts.
       exists (name, regs). split; [apply In_bpairs; exact Hb|].
       unfold decl_outs. cbn [fst snd]. rewrite Eu. apply in_map_iff.
       exists (rname, w, dflt). split; [symmetry; exact Hx | exact Hr].
+  Qed.
+
+  (* ---- the control signals the builder treats as known are those the statements leave unassigned *)
+  Definition decl_dfl (s : st1) (b : string * list (string * width * expr)) : list string :=
+    match utf8_chars (fst b) "" with
+    | [inp; outp] =>
+        (if has (s_assigns s) ("stall_" ++ outp)%string then [] else [("stall_" ++ outp)%string]) ++
+        (if has (s_assigns s) ("bubble_" ++ outp)%string then [] else [("bubble_" ++ outp)%string])
+    | _ => []
+    end.
+
+  Lemma step3_bank_dfl_iff s consts t b :
+    t_errs (step3_bank f is_lower is_upper s consts t b) = [] ->
+    forall n, In n (t_defaulted (step3_bank f is_lower is_upper s consts t b)) <->
+              In n (t_defaulted t) \/ In n (decl_dfl s b).
+  Proof.
+    destruct b as [name regs]. unfold step3_bank, decl_dfl. cbv beta iota. cbn [fst snd].
+    destruct (utf8_chars name "") as [|inp [|outp [|x l]]];
+      try (cbn [t_errs]; intros He; apply app_eq_nil in He; destruct He as [_ He]; discriminate He).
+    destruct (negb (is_lower inp) || negb (is_upper outp));
+      [cbn [t_errs]; intros He; apply app_eq_nil in He; destruct He as [_ He]; discriminate He|].
+    match goal with
+    | |- context [fold_left ?F regs ?A] =>
+        pose proof (step3_regs_keep f s consts name inp outp regs A) as Hk;
+        destruct (fold_left F regs A) as [[t2 sigs] defaults]
+    end.
+    destruct Hk as [_ K2]. cbn [r_t fst t_defaulted] in K2.
+    intros _ n. cbn [t_defaulted]. rewrite K2. apply fold_add_set_In.
+  Qed.
+
+  Lemma T3_dfl_gen s consts : forall l t,
+    t_errs (fold_left (step3_bank f is_lower is_upper s consts) l t) = [] ->
+    forall n, In n (t_defaulted (fold_left (step3_bank f is_lower is_upper s consts) l t)) <->
+              In n (t_defaulted t) \/ In n (flat_map (decl_dfl s) l).
+  Proof.
+    induction l as [|b l IH]; intros t He n; cbn [fold_left flat_map] in *.
+    - cbn [In]. tauto.
+    - destruct (T3_outs_gen s consts _ _ He) as [He1 _].
+      rewrite (IH _ He n), (step3_bank_dfl_iff s consts t b He1 n), in_app_iff. tauto.
+  Qed.
+
+  Lemma decl_dfl_defaulted_control fixed stmts n :
+    In n (flat_map (decl_dfl (fold_left (step1 fixed) stmts (init1 fixed))) (flat_map bpairs stmts)) <->
+    defaulted_control stmts n.
+  Proof.
+    set (s := fold_left (step1 fixed) stmts (init1 fixed)).
+    assert (Hhas : forall x, has (s_assigns s) x = false <-> ~ In x (assigned_names stmts)).
+    { intros x. rewrite <- (S1_assigns_has fixed is_lower is_upper stmts x). fold s.
+      destruct (has (s_assigns s) x); split; intros H; try reflexivity; try discriminate H.
+      - exfalso. apply H. reflexivity.
+      - intros H'. discriminate H'. }
+    rewrite in_flat_map. unfold defaulted_control. split.
+    - intros [[name regs] [Hb Hx]]. apply In_bpairs in Hb. unfold decl_dfl in Hx. cbn [fst] in Hx.
+      destruct (utf8_chars name "") as [|inp [|outp [|y l]]] eqn:Eu; try contradiction.
+      exists name, regs, inp, outp. split; [exact Hb|]. split; [exact Eu|].
+      apply in_app_iff in Hx. destruct Hx as [Hx|Hx].
+      + destruct (has (s_assigns s) ("stall_" ++ outp)) eqn:E; [contradiction|].
+        destruct Hx as [<-|[]]. split; [left; reflexivity | apply Hhas; exact E].
+      + destruct (has (s_assigns s) ("bubble_" ++ outp)) eqn:E; [contradiction|].
+        destruct Hx as [<-|[]]. split; [right; reflexivity | apply Hhas; exact E].
+    - intros [name [regs [inp [outp [Hb [Eu [Hn Hna]]]]]]].
+      exists (name, regs). split; [apply In_bpairs; exact Hb|].
+      unfold decl_dfl. cbn [fst]. rewrite Eu. apply Hhas in Hna. apply in_app_iff.
+      destruct Hn as [-> | ->]; [left | right]; rewrite Hna; left; reflexivity.
+  Qed.
+
+  Lemma T3_dfl fixed stmts consts :
+    let s := fold_left (step1 fixed) stmts (init1 fixed) in
+    t_errs (fold_left (step3_bank f is_lower is_upper s consts) (s_banks s)
+                      (mkSt3 [] [] (s_types s) [] [] [])) = [] ->
+    forall x, In x (t_defaulted (fold_left (step3_bank f is_lower is_upper s consts) (s_banks s)
+                                           (mkSt3 [] [] (s_types s) [] [] []))) <->
+              defaulted_control stmts x.
+  Proof.
+    intros s He x. rewrite (T3_dfl_gen s consts _ _ He x). cbn [t_defaulted In].
+    subst s. rewrite S1_banks, fold_snoc. cbn [app].
+    rewrite (decl_dfl_defaulted_control fixed stmts x). tauto.
   Qed.
 
   Lemma T3_outs fixed stmts consts :
@@ -967,7 +1054,7 @@ Section LoopProofs.
   Definition T3 (s : st1) (consts : list (string * wval)) : st3 :=
     fold_left (step3_bank f is_lower is_upper s consts) (s_banks s) (mkSt3 [] [] (s_types s) [] [] []).
   Definition known_of (s : st1) (consts : list (string * wval)) : list string :=
-    all_out_names (t_banks (T3 s consts)) ++ map fst consts.
+    all_out_names (t_banks (T3 s consts)) ++ t_defaulted (T3 s consts) ++ map fst consts.
   Definition errs4_of (s : st1) (consts : list (string * wval)) : list err :=
     t_errs (T3 s consts) ++
     unset_errors s (T3 s consts)
@@ -1071,13 +1158,15 @@ Section LoopProofs.
 
   (* ---- R2: the graph of the wires is the relation of the wires -------------------------------- *)
   Lemma known_iff stmts consts : sort_ready stmts consts ->
-    forall x, In x (known_of (S1 stmts) consts) <-> bank_output stmts x \/ In x (const_names stmts).
+    forall x, In x (known_of (S1 stmts) consts) <->
+              bank_output stmts x \/ defaulted_control stmts x \/ In x (const_names stmts).
   Proof.
-    intros [Hc [Hr [H4 _]]] x. unfold known_of. rewrite in_app_iff.
+    intros [Hc [Hr [H4 _]]] x. unfold known_of. rewrite !in_app_iff.
     unfold errs4_of in H4. apply app_eq_nil in H4. destruct H4 as [Hte _].
     destruct (const_edges stmts Hc) as [Hnd [Hcl _]].
     destruct (resolve_ok_keys _ _ Hnd Hcl Hr) as [_ Hk].
-    rewrite (T3_outs f is_lower is_upper fixed stmts consts Hte x), Hk.
+    rewrite (T3_outs f is_lower is_upper fixed stmts consts Hte x),
+            (T3_dfl f is_lower is_upper fixed stmts consts Hte x), Hk.
     rewrite <- (S1_consts_has fixed is_lower is_upper stmts x), has_In. reflexivity.
   Qed.
 
@@ -1100,12 +1189,14 @@ Section LoopProofs.
         * apply assigned_to_iff. apply S1_assigns_iff; assumption.
         * exact H2.
         * intros Hb. apply H3. left. exact Hb.
-        * intros Hk. apply H3. right. exact Hk.
+        * intros Hd. apply H3. right. left. exact Hd.
+        * intros Hk. apply H3. right. right. exact Hk.
       + apply (rd_builtin fixed stmts y x ff w); [exact H1 | | exact H3 | exact H5].
         intros i Hi. apply (S1_assigns_has fixed is_lower is_upper). apply H2. exact Hi.
-    - intros [e H1 H2 H3 H5|ff w H1 H2 H3 H5].
+    - intros [e H1 H2 H3 H4 H5|ff w H1 H2 H3 H5].
       + left. exists e. split; [apply S1_assigns_iff; [exact He|]; apply assigned_to_iff; exact H1|].
-        split; [exact H2|]. apply mem_str_false. rewrite Hknown. intros [Hb|Hk]; [exact (H3 Hb) | exact (H5 Hk)].
+        split; [exact H2|]. apply mem_str_false. rewrite Hknown.
+        intros [Hb|[Hd|Hk]]; [exact (H3 Hb) | exact (H4 Hd) | exact (H5 Hk)].
       + right. exists ff, w. split; [exact H1|]. split; [|split; assumption].
         intros i Hi. apply (S1_assigns_has fixed is_lower is_upper). apply H2. exact Hi.
   Qed.
@@ -1621,17 +1712,58 @@ Example ex_bank_never_counts :
   ~ reads_directly gen_fixed ex_bank "x_v" "Y_v" /\ forall a, ~ reads_directly gen_fixed ex_bank "Y_v" a.
 Proof.
   split.
-  - intros [e _ _ Hb _|ff w Hff _ Ho _].
+  - intros [e _ _ Hb _ _|ff w Hff _ Ho _].
     + exact (Hb ex_bank_output).
     + cbn [gen_fixed In] in Hff.
       repeat (destruct Hff as [<-|Hff]; [cbn [ff_out] in Ho; discriminate Ho|]). contradiction.
-  - intros a [e [asg [ts [H1 [H2 H3]]]] _ _ _|ff w Hff _ Ho _].
+  - intros a [e [asg [ts [H1 [H2 H3]]]] _ _ _ _|ff w Hff _ Ho _].
     + cbn [ex_bank stat_ok pc_zero In] in H1.
       destruct H1 as [H1|[H1|[H1|[H1|[]]]]]; try discriminate H1; injection H1 as <-;
         destruct H2 as [H2|[]]; injection H2 as <- <-; destruct H3 as [H3|[]]; discriminate H3.
     + cbn [gen_fixed In] in Hff.
       repeat (destruct Hff as [<-|Hff]; [cbn [ff_out] in Ho; discriminate Ho|]). contradiction.
 Qed.
+
+(* -- a control signal the program leaves unassigned (stall_Y) is a known value: reading it is
+      accepted and is no edge; once the program assigns it, it is an ordinary wire -- *)
+Definition ex_stall : list stmt :=
+  [SBank "xY" [("v", Bits 64, lit 0)]; SWire [("s", Bits 1)];
+   SAssign [(["s"], EWire "stall_Y")];
+   SAssign [(["x_v"], EBin Add (EWire "Y_v") (lit 1))]; stat_ok; pc_zero].
+
+Example ex_stall_text :
+  parse_hcl "register xY { v : 64 = 0; } wire s : 1; s = stall_Y; x_v = Y_v + 1; Stat = 0b001; pc = 0;"
+  = Some ex_stall.
+Proof. vm_compute. reflexivity. Qed.
+
+Example ex_stall_accepted : accepted ex_stall.
+Proof. vm_compute. reflexivity. Qed.
+
+Example ex_stall_defaulted : defaulted_control ex_stall "stall_Y".
+Proof.
+  exists "xY", [("v", Bits 64, lit 0)], "x", "Y".
+  split; [left; reflexivity|]. split; [vm_compute; reflexivity|]. split; [left; reflexivity|].
+  vm_compute. intros H. repeat (destruct H as [H|H]; [discriminate H|]). contradiction.
+Qed.
+
+Example ex_stall_never_counts :
+  assigned_to ex_stall "s" (EWire "stall_Y") /\ ~ reads_directly gen_fixed ex_stall "s" "stall_Y".
+Proof.
+  split.
+  - exists [(["s"], EWire "stall_Y")], ["s"]. split; [right; right; left; reflexivity|]. split; left; reflexivity.
+  - intros [e _ _ _ Hd _|ff w Hff _ Ho _].
+    + exact (Hd ex_stall_defaulted).
+    + cbn [gen_fixed In] in Hff.
+      repeat (destruct Hff as [<-|Hff]; [cbn [ff_out] in Ho; discriminate Ho|]). contradiction.
+Qed.
+
+Definition ex_stall_assigned : list stmt :=
+  [SBank "xY" [("v", Bits 64, lit 0)]; SWire [("s", Bits 1)];
+   SAssign [(["s"], EWire "stall_Y")]; SAssign [(["stall_Y"], EWire "s")];
+   SAssign [(["x_v"], EBin Add (EWire "Y_v") (lit 1))]; stat_ok; pc_zero].
+
+Example ex_stall_assigned_rejected : build_gen ex_stall_assigned = Err [mkErr WireLoop ["s"; "stall_Y"]].
+Proof. vm_compute. reflexivity. Qed.
 
 (* -- feedback through the write port of the register file: accepted -- *)
 Definition ex_regwrite : list stmt :=
@@ -1659,7 +1791,7 @@ Proof.
     + intros i [<-|[]]. vm_compute. do 2 right. left. reflexivity.
     + reflexivity.
     + left. reflexivity.
-  - intros a [e [asg [ts [H1 [H2 H3]]]] _ _ _|ff w Hff _ Ho Hin].
+  - intros a [e [asg [ts [H1 [H2 H3]]]] _ _ _ _|ff w Hff _ Ho Hin].
     + exfalso. cbn [ex_regwrite stat_ok pc_zero In] in H1.
       destruct H1 as [H1|[H1|[H1|[H1|[H1|[]]]]]]; injection H1 as <-;
         destruct H2 as [H2|[]]; injection H2 as <- <-; destruct H3 as [H3|[]]; discriminate H3.
@@ -1702,6 +1834,8 @@ Proof.
       split; [left; reflexivity|]. split; left; reflexivity.
     + left. reflexivity.
     + intros [name [regs [inp [outp [rname [w [dflt [H _]]]]]]]].
+      cbn [ex_srcA stat_ok pc_zero In] in H. destruct H as [H|[H|[H|[]]]]; discriminate H.
+    + intros [name [regs [inp [outp [H _]]]]].
       cbn [ex_srcA stat_ok pc_zero In] in H. destruct H as [H|[H|[H|[]]]]; discriminate H.
     + intros [].
 Qed.
@@ -1847,6 +1981,9 @@ Proof.
   - intros [name [regs [inp [outp [rname [w [dflt [H _]]]]]]]].
     cbn [ex_preempt_decl stat_ok pc_zero In] in H.
     repeat (destruct H as [H|H]; [discriminate H|]). contradiction.
+  - intros [name [regs [inp [outp [H _]]]]].
+    cbn [ex_preempt_decl stat_ok pc_zero In] in H.
+    repeat (destruct H as [H|H]; [discriminate H|]). contradiction.
   - intros [].
 Qed.
 
@@ -1900,6 +2037,9 @@ Proof.
       split; [left; reflexivity|]. split; left; reflexivity.
     + left. reflexivity.
     + intros [name [regs [inp [outp [rname [w [dflt [H _]]]]]]]].
+      cbn [ex_preempt_mid stat_ok pc_zero In] in H.
+      repeat (destruct H as [H|H]; [discriminate H|]). contradiction.
+    + intros [name [regs [inp [outp [H _]]]]].
       cbn [ex_preempt_mid stat_ok pc_zero In] in H.
       repeat (destruct H as [H|H]; [discriminate H|]). contradiction.
     + intros [].
@@ -1975,3 +2115,4 @@ Print Assumptions accepted_is_acyclic_gen.
 Print Assumptions wire_loop_exact_gen.
 Print Assumptions ex_srcA_exact.
 Print Assumptions ex_bank_never_counts.
+Print Assumptions ex_stall_never_counts.
